@@ -1047,7 +1047,7 @@ func checkContainment(e *extInfo, c c02Case, data []byte) error {
 
 // fatalSite names the place of a fatal runtime error from the crash output of a process: the
 // innermost function of the repository on the crashing goroutine's stack or, when the goroutine
-// was started by a dependency, its innermost non-runtime function.
+// was started by a dependency (no recover can reach it), that goroutine's root function.
 func fatalSite(out string) string {
 	switch {
 	case strings.Contains(out, "fatal error: runtime: out of memory"), strings.Contains(out, "cannot allocate memory"):
@@ -1077,9 +1077,11 @@ func fatalSite(out string) string {
 		if strings.HasPrefix(fn, modulePath) {
 			return strings.TrimPrefix(fn, modulePath)
 		}
-		if first == "" {
-			first = fn
-		}
+		// no function of the repository is on this stack: the goroutine was started by a
+		// dependency, and any panic on it is fatal for the same reason (nothing can recover
+		// it). The goroutine's root function names that defect, wherever below it the panic
+		// was raised.
+		first = fn
 	}
 	if first == "" {
 		return "(unknown)"
